@@ -100,10 +100,10 @@ def oracle_fit(ctx, thorough, forced=None):
         cap = forced[3]
         sp['max_iterations'] = cap
     if fam == 'edmd':
-        reg = lmi.LmiEdmdSpectralRadiusConstr(spectral_radius=rho, max_iter=max_iter, alpha=rng.choice([0, 0.1]),
+        reg = lmi.LmiEdmdSpectralRadiusConstr(spectral_radius=lc.num(rng, rho), max_iter=max_iter, alpha=rng.choice([0, 0.1]),
                                               inv_method=rng.choice(['svd', 'chol']), solver_params=sp)
     else:
-        reg = lmi.LmiDmdcSpectralRadiusConstr(spectral_radius=rho, max_iter=max_iter, alpha=rng.choice([0, 0.1]),
+        reg = lmi.LmiDmdcSpectralRadiusConstr(spectral_radius=lc.num(rng, rho), max_iter=max_iter, alpha=rng.choice([0, 0.1]),
                                               solver_params=sp)
     case = {'family': fam, 'nx': nx, 'nu': nu, 'rho': rho, 'max_iter': max_iter, 'data_radius': radius,
             'solver_max_iterations': cap, 'X': X.tolist(),
